@@ -18,6 +18,7 @@ import (
 	"fmt"
 	"math/big"
 	"strings"
+	"sync/atomic"
 	"testing"
 	"time"
 
@@ -47,6 +48,10 @@ type C16Cfg struct {
 	// with what was sent at the END of the run, byte for byte: nothing another connection does afterwards may
 	// change a message that was handed over.
 	HonestSize int `json:"honestSize,omitempty"`
+	// Hold: before anything else, this many connections are opened to the victim of the attacks and kept open
+	// without a single byte being sent (clients that connect and stall): however the node rations its handshake
+	// work, what it attributes stays bound to the connection that proved it
+	Hold int `json:"hold,omitempty"`
 }
 
 // c16HonestPayload is the m-th honest message from i to j.
@@ -81,6 +86,10 @@ func genC16(seed uint64, index int, tier string) C16Cfg {
 	if rs := prng.Derive(seed, "honest-size"); rs.Bool(0.4) {
 		c.HonestSize = []int{4096, 8192, 30000}[rs.Intn(3)]
 	}
+	hold := 0
+	if rh := prng.Derive(seed, "hold"); rh.Bool(0.12) {
+		hold = rh.Range(20, 45)
+	}
 	na := r.Range(2, 6)
 	for k := 0; k < na; k++ {
 		a := C16Attack{Victim: 1 + r.Intn(c.N), Cut: r.Intn(400), At: r.Intn(120)}
@@ -91,6 +100,15 @@ func genC16(seed uint64, index int, tier string) C16Cfg {
 		// the catalogue is walked by the run index so that every variant is certainly exercised
 		a.Variant = c16Variants[(index*7+k*3+r.Intn(2))%len(c16Variants)]
 		c.Attacks = append(c.Attacks, a)
+	}
+	if hold > 0 {
+		c.Hold = hold
+		for i := range c.Attacks {
+			c.Attacks[i].Victim = c.Attacks[0].Victim
+			for c.Attacks[i].Claimed == c.Attacks[i].Victim {
+				c.Attacks[i].Claimed = 1 + (c.Attacks[i].Claimed % c.N)
+			}
+		}
 	}
 	return c
 }
@@ -362,8 +380,24 @@ func runC16(t *testing.T, spec RunSpec) *RunResult {
 		var honestStarted bool
 		honestDone := 0
 		honestTotal := 0
+		holdStarted := false
+		var heldConns atomic.Int64
 		w.Propose = func() []netsim.Proposal {
 			var ps []netsim.Proposal
+			if cfg.Hold > 0 && !holdStarted {
+				return []netsim.Proposal{{Key: "hold", Mandatory: true, Weight: 50, Fire: func() {
+					holdStarted = true
+					w.Faults["stalled-client-connections"] += cfg.Hold
+					for i := 0; i < cfg.Hold; i++ {
+						i := i
+						go func() {
+							if _, err := cw.net.Dial("tcp", fmt.Sprintf("p%d.sim:%d", cfg.Attacks[0].Victim, 3000+i)); err == nil {
+								heldConns.Add(1)
+							}
+						}()
+					}
+				}}}
+			}
 			if !honestStarted {
 				ps = append(ps, netsim.Proposal{Key: "start:honest", Mandatory: true, Weight: 3, Fire: func() {
 					honestStarted = true
